@@ -996,6 +996,19 @@ def qname_oracle(env, items, info, m):
             out.append(O.Check('nested-prefix-other-namespace', 'Order.other (b:Item) must be %s::Item, is %s' % (RO.one(ib.module), ft.get('other')), ft.get('other') == '%s::Item' % RO.one(ib.module)))
             out.append(O.Check('nested-prefix-ref', 'Order.note (ref tns:Note) must be %s::Note, is %s' % (RO.one(ia.module), ft.get('note')), ft.get('note') == '%s::Note' % RO.one(ia.module)))
         return out + references_resolve(items)
+    if getattr(info, 'rebound', False):
+        ia = struct_by_member(items, 'ia', 'Item')
+        ib = struct_by_member(items, 'ib', 'Item')
+        out.append(O.Check('both-components-emitted', 'both Items are emitted', ia is not None and ib is not None))
+        pl = O.find_structs(items, 'Plain', env.allowed)
+        scd = O.find_structs(items, 'Scoped', env.allowed)
+        if ia is not None and ib is not None and len(pl) == 1 and len(scd) == 1:
+            t1 = RO.one(pl[0].fields[0][1])[1] if pl[0].fields else None
+            t2 = RO.one(scd[0].fields[0][1])[1] if scd[0].fields else None
+            out.append(O.Check('root-prefix', 'Plain.mine (p:Item, p bound to the target namespace on the root) must be %s::Item, is %s' % (RO.one(ia.module), t1), t1 == '%s::Item' % RO.one(ia.module)))
+            out.append(O.Check('prefix-rebound-on-nested-element', 'Scoped.theirs (p:Item, p bound again on the complexType to the imported namespace) must be %s::Item, is %s' % (RO.one(ib.module), t2),
+                               t2 == '%s::Item' % RO.one(ib.module)))
+        return out + references_resolve(items)
     if getattr(info, 'default', False):
         a1 = struct_by_member(items, 'host', 'Address')
         a2 = struct_by_member(items, 'street', 'Address')
@@ -1031,10 +1044,10 @@ def qname_oracle(env, items, info, m):
 def c09(tier):
     def body(s):
         s.functions.update(n for n in s.ctx.bodies if re.search(r'find_node_by_xml_name|try_to_find_node|resolve_type|split_type|as_rust_type|add_namespace_reference|collect_namespaces', n))
-        for sc, info in [F.q_types(tier), F.q_rebind(tier), F.q_default(tier), F.q_three(tier), F.q_nested(tier)]:
+        for sc, info in [F.q_types(tier), F.q_rebind(tier), F.q_default(tier), F.q_three(tier), F.q_nested(tier), F.q_rebound(tier)]:
             scenario_check(s, sc, info, qname_oracle, classify=lambda c, p, i: ','.join('%s=%s' % (k, v) for k, v in sorted(p.items()) if k != 'order'))
     return run_e2('C09', tier, body, bounds='two namespaces in two files defining complexTypes with the same local name; type= and base= references whose prefix is symbolic; '
-                  'declaration order symbolic (3 or all 6 orders); one prefix bound to different namespaces in different files. Outside: element ref= / message part collisions '
+                  'declaration order symbolic (3 or all 6 orders); one prefix bound to different namespaces in different files; the only prefix of the target namespace bound on a nested element; a root prefix bound again on a nested element. Outside: element ref= / message part collisions '
                   '(exercised by C05), kinds other than complexType.')
 
 
